@@ -760,6 +760,12 @@ impl ExecutionState {
     pub fn should_stop() -> bool {
         std::thread::panicking()
             || Self::with(|s| {
+                // Tasks that are torn down at the end of an execution (e.g. a detached future that was never
+                // polled, dropped together with the values it captured) run their drop handlers here too;
+                // the execution may well have finished normally by then.
+                if s.in_cleanup {
+                    return true;
+                }
                 assert_ne!(s.current_task, ScheduledTask::Finished);
                 s.current_task == ScheduledTask::Stopped
             })
